@@ -883,6 +883,10 @@ func (s *Sim) Finish() {
 	s.mu.Unlock()
 }
 
+// Draining says whether Finish has been called: whatever a harness goroutine observes from then on
+// is the teardown, not the run, and must not be recorded.
+func (s *Sim) Draining() bool { return s != nil && s.draining.Load() }
+
 // Detach makes simrt forget the simulation (call after the bubble has been torn down).
 func (s *Sim) Detach() { cur.CompareAndSwap(s, nil) }
 
